@@ -267,6 +267,7 @@ pub enum Action {
     Enter, // state entry only (hook/unhook/osc start/end, clear)
 }
 
+#[derive(Clone)]
 pub struct RefParser {
     pub st: St,
     params: Vec<Vec<u16>>,
